@@ -227,6 +227,9 @@ def extract_consts():
     src_b = inspect.getsource(_boss.Boss.got_message)
     rx = re.findall(r're\.search\(r"([^"]*)"', src_b) + re.findall(r"re\.search\(r'([^']*)'", src_b)
     L.append("def boss_phase_regexes : List String := [" + ", ".join(lean_str(x) for x in rx) + "]")
+    # C04: the chunk size of the FileSender that cmd_send._send_file actually uses
+    from wormhole.cli import cmd_send as _cs
+    L.append(f"def FILESENDER_CHUNK_SIZE : Nat := {int(_cs.basic.FileSender.CHUNK_SIZE)}")
     L.append("end WV.Gen.Consts")
     return "\n".join(L) + "\n"
 
@@ -383,6 +386,10 @@ SKELETON_TARGETS = [
     ("wormhole._dilation.subchannel", "SubChannel", None),
     ("wormhole._dilation.outbound", "Outbound", None),
     ("wormhole._dilation.inbound", "Inbound", None),
+    ("wormhole.cli.cmd_receive", "Receiver", None),   # C04
+    ("wormhole.cli.cmd_send", "Sender", None),        # C04
+    ("wormhole.transit", "Connection", None),         # C04
+    ("wormhole.transit", "FileConsumer", None),       # C04
 ]
 
 
